@@ -206,7 +206,7 @@ func genSheet(t *rapid.T) Sheet {
 			if rapid.Bool().Draw(t, "rescue") {
 				k := rapid.IntRange(1, 2).Draw(t, "tag_indels")
 				params = append(params, Param{"tag_indels", []string{strconv.Itoa(k)}})
-				minTagLen = k + 2
+				minTagLen = k + 1
 			}
 		}
 		sh.Params = rapid.Permutation(params).Draw(t, "param_order")
